@@ -121,12 +121,8 @@ def pair_ok(r):
 
 def gen_docs(rng, n):
     docs = c12.gen_docs(rng, n)
-    # The reference of the pixel oracle goes through the writer, which writes only the DIRECT path children of a group inside
-    # a clipPath (writer.rs, "Text elements will be converted into groups, but only the group's children should be written"):
-    # a `text` with a `transform` inside a clipPath becomes group > group > paths and is lost in the written document
-    # (witness corpus/witness/C19-clip-text-transform-writer.svg: 174 pixels of delta 255 in the glyph area, all of them in the
-    # REFERENCE; reported to the coordinator as a writer (C07 / C08) candidate).  Such documents cannot serve as references.
-    docs = [re.sub(r'(<clipPath\b[^>]*>(?:(?!</clipPath>).)*?<text\b[^>]*?) transform="[^"]*"', r'\1', d, flags=re.S) for d in docs]
+    # (5d8487d: the writer keeps clipPath children nested in groups - text with a transform; regression input
+    #  corpus/witness/C19-clip-text-transform-writer.svg; generator kind 10 of c12.gen_docs has such a clip path)
     # ids on every element are already there (g1, g2, p1, p2, u1, u2, n1, t1, i1); add documents with nested groups
     for i in range(n // 4):
         t1 = rng.choice(['translate(50,60)', 'scale(2)', 'rotate(30 100 100)', 'translate(20 10) scale(0.5 1.5)', 'skewX(20)'])
